@@ -22,7 +22,7 @@ class C16(Prop):
         'C16: that cbor_string_set_handle / the builder store length and bytes unchanged and store 0 for invalid text is part of the item model (C02/C03 correspondence), not of these theorems']
     rule = ('every byte sequence of length 0..3 (4 in thorough for non-ASCII leads) by block digests on all three sides (C, generated Lean, Spec), '
             'plus explicit cases: valid scalars of every length class with single injected faults at every position, long ASCII runs inside '
-            'unfinished sequences; non-trivial = contains a byte >= 0x80; distinct by (bytes, result)')
+            'unfinished sequences; the explicit cases and word-sized ASCII prefixes followed by valid / invalid tails also through every entry point that attaches bytes to a definite text string (cbor_build_stringn, cbor_build_string, cbor_string_set_handle, cbor_load, cbor_copy): count, byte length, content preserved; non-trivial = contains a byte >= 0x80; distinct by (bytes, result)')
 
     def explicit(self, tier, rng):
         out = [b'']
@@ -105,6 +105,27 @@ class C16(Prop):
                 fails.append({'input': l, 'expected': 'cpython %s' % (pw,), 'observed': 'spec %s' % (sw,), 'why': 'the Spec itself disagrees with the independent validator'})
             if got != pw:
                 fails.append({'input': l, 'expected': 'count %d status %d (RFC 3629)' % pw, 'observed': co, 'why': 'code point count / validity wrong'})
+        # (3) the same bytes through every way of attaching them to / decoding them into a definite text string
+        it = [b for b in ex if len(b) <= 64][: (6000 if tier == 'thorough' else 1500)]
+        for pre in (8, 9, 15, 16, 17, 24, 32):            # word-sized ASCII prefixes in front of valid / invalid tails
+            for tail in (b'', b'\xc5', b'\xc5\x99', b'\xe2\x82', b'\xe2\x82\xac', b'\xf0\x9f\x98', b'\xf0\x9f\x98\x80', b'\x80', b'\xff',
+                         b'\xed\xa0\x80', b'\xc0\xaf', b'\xef\xbf\xbe', b'\xef\xbf\xbf', b'\xf4\x8f\xbf\xbf', b'\xf4\x90\x80\x80'):
+                it.append(b'a' * pre + tail); it.append(b'a' * pre + tail + b'z'); it.append(tail + b'a' * pre)
+        lines3 = ['UTF8ITEM ' + gen.hexs(b) for b in it]
+        c3, rc, err = ctx.run_c(lines3)
+        if rc != 0 or len(c3) != len(lines3):
+            i, l, e = core.first_crash_line(ctx.harness, lines3)
+            return fails + [{'input': l, 'expected': 'counts through every entry point', 'observed': 'implementation aborted', 'why': e[-800:]}]
+        for b, l, co in zip(it, lines3, c3):
+            ctx.count(l, co); ctx.bump('item_paths')
+            want = '%d/%d/1' % (py_count(b)[0], len(b))
+            for f in co.split():
+                k, _, v = f.partition('=')
+                if v in ('skip',): continue
+                if v != want:
+                    fails.append({'input': l, 'expected': '%s=%s (count/length/bytes preserved)' % (k, want), 'observed': co,
+                                  'why': 'code point count, length or content wrong through entry point ' + k})
+                    break
         return [f for f in fails if f][:20]
 
     def bisect(self, ctx, block, refname, refexe):
@@ -124,6 +145,13 @@ class C16(Prop):
 
     def replay(self, ctx, rp):
         l = rp['failure']['input']
+        if l.startswith('UTF8ITEM '):
+            b = bytes.fromhex(l.split()[1]) if l.split()[1] != '-' else b''
+            co, rc, _ = ctx.run_c([l])
+            if rc != 0: return [dict(rp['failure'], observed='implementation aborted')]
+            want = '%d/%d/1' % (py_count(b)[0], len(b))
+            bad = [f for f in co[0].split() if f.partition('=')[2] not in (want, 'skip')]
+            return [dict(rp['failure'], observed=co[0])] if bad else []
         if not l.startswith('UTF8 '): return self.oracle('quick', ctx)
         b = bytes.fromhex(l.split()[1]) if l.split()[1] != '-' else b''
         co, rc, _ = ctx.run_c([l])
